@@ -24,11 +24,18 @@ pub struct PlanStats {
 
 std::thread_local! {
     static STATS: Cell<PlanStats> = const { Cell::new(PlanStats { steps: 0, max_live: 0, iterations: 0, chosen_cost: None }) };
+    static TOTAL: Cell<(u64, u64)> = const { Cell::new((0, 0)) };
 }
 
 /// Get the counters of the last planner run on this thread.
 pub fn plan_stats() -> PlanStats {
     STATS.with(|s| s.get())
+}
+
+/// Get the number of planner runs and of `Plan::step` calls on this thread since it started
+/// (never reset, so the work of a whole `encode` call can be measured as a difference).
+pub fn total_plan_work() -> (u64, u64) {
+    TOTAL.with(|t| t.get())
 }
 
 /// Get the ECIs (output position, ECI number) contained in the data codewords.
@@ -38,6 +45,7 @@ pub fn eci_spans(codewords: &[u8]) -> Result<Vec<(usize, u32)>, DataDecodingErro
 
 pub(crate) fn reset() {
     STATS.with(|s| s.set(PlanStats::default()));
+    TOTAL.with(|t| t.set((t.get().0 + 1, t.get().1)));
 }
 
 pub(crate) fn step() {
@@ -46,6 +54,7 @@ pub(crate) fn step() {
         v.steps += 1;
         s.set(v);
     });
+    TOTAL.with(|t| t.set((t.get().0, t.get().1 + 1)));
 }
 
 pub(crate) fn live(n: usize) {
